@@ -97,6 +97,7 @@ const (
 	ParseMessageType         byte = 'P'
 	BindMessageType          byte = 'B'
 	ExecuteMessageType       byte = 'E'
+	DescribeMessageType      byte = 'D'
 	ErrorResponseType        byte = 'E'
 	ParseCompleteMessageType byte = '1'
 	BindCompleteMessageType  byte = '2'
@@ -408,10 +409,41 @@ func (proxy *PgProxy) handleClientPacket(ctx context.Context, packet *PacketHand
 		return proxy.handleBindPacket(ctx, packet, logger)
 
 	default:
+		if packet.IsDescribe() {
+			proxy.handleDescribePacket(packet, logger)
+		}
 		// Forward all other uninteresting packets to the database without processing.
 		return false, nil
 	}
 	return false, nil
+}
+
+// handleDescribePacket makes the settings of the described statement/portal current: the RowDescription that answers
+// this packet describes result of that statement, not of the last parsed or bound one
+func (proxy *PgProxy) handleDescribePacket(packet *PacketHandler, logger *log.Entry) {
+	describe, err := packet.GetDescribeData()
+	if err != nil {
+		logger.WithError(err).Debugln("Can't parse Describe packet")
+		return
+	}
+	var statement PreparedStatement
+	switch describe.ObjectType {
+	case 'S':
+		found, err := proxy.registry.StatementByName(describe.Name)
+		if err != nil {
+			return
+		}
+		statement = found
+	case 'P':
+		cursor, err := proxy.registry.CursorByName(describe.Name)
+		if err != nil {
+			return
+		}
+		statement = cursor.PreparedStatement()
+	}
+	if pgStatement, ok := statement.(*PgPreparedStatement); ok {
+		encryptor.SaveQueryDataItemsToClientSession(proxy.session, pgStatement.QueryDataItems())
+	}
 }
 
 func (proxy *PgProxy) handleQueryPacket(ctx context.Context, packet *PacketHandler, logger *log.Entry) (bool, error) {
